@@ -19,6 +19,8 @@ class Result:
         self.flows = []
         self.hidden = set()
         self.nested = False
+        self.unknowns = []      # undeclared names in order of first text-mode use
+        self.formulas = []      # inline formulas in expansion order
     @property
     def seq(self):
         out = list(self.main)
@@ -46,7 +48,14 @@ def ev(n, env, res):
         return out
     if t == 'word':
         return [(n['w'], 'copy')]
-    if t in ('ws', 'par', 'special', 'symbol', 'accent', 'imath', 'verb', 'hspace', 'linebreak', 'verbatim',
+    if t == 'imath':
+        res.formulas.append(n)
+        return []
+    if t == 'hspace':
+        if n['name'].startswith('\\hspace') and n['len'].startswith('\\'):
+            note_unknown(res, n['len'])     # \hspace inspects its argument: \fill is an undeclared macro used in text
+        return []
+    if t in ('ws', 'par', 'special', 'symbol', 'accent', 'verb', 'linebreak', 'verbatim',
              'selectlanguage', 'usepackage', 'rawword', 'gls', 'param'):
         return []
     if t == 'comment':
@@ -55,6 +64,7 @@ def ev(n, env, res):
     if t == 'group':
         return ev(n['body'], env, res)
     if t == 'unknown':
+        note_unknown(res, n['name'])
         out = []
         for a in n['args']:
             out += ev(a, env, res)
@@ -105,6 +115,8 @@ def ev(n, env, res):
             res.hidden.add(n['label'])
         return out
     if t == 'env':
+        if not n.get('known'):
+            note_unknown(res, n['name'])
         return ev(n['body'], env, res)
     if t == 'skip':
         hide(n['body'], res)
@@ -118,6 +130,7 @@ def ev(n, env, res):
         cur = env.macros.get(m['name'])
         if cur is None:
             # used before (or without) its definition: unknown macro, arguments stay
+            note_unknown(res, m['name'])
             out = []
             for a in n['args']:
                 if a is not None:
@@ -169,6 +182,10 @@ def ev(n, env, res):
             return []
         return [(b['w'], 'copy') for b in n['desc'] if b['t'] == 'word']
     raise Unsupported(t)
+
+def note_unknown(res, name):
+    if name not in res.unknowns:
+        res.unknowns.append(name)
 
 class Unsupported(Exception):
     pass
